@@ -313,7 +313,7 @@ def _g_channels(rep):
     rep.guarded("R-C11-default-mask", C11.rule_default_mask)
     rep.floor("R-C11-default-mask", 8)
     rep.floor("R-C11-guard", 40)
-    rep.floor("R-C11-index", 70)
+    rep.floor("R-C11-index", 64)
     rep.floor("R-C11-count", 14)
     rep.floor("R-C11-scratch", 6)
     rep.clause("R-C11-*", "channels are processed independently under their own mask bit; None means all channels (shared with C11)")
